@@ -168,7 +168,7 @@ Definition model_rcall (r : raw) (c : rcall) : bool :=
   match c with
   | RBit i o => res_agree Bool.eqb (raw_bit r i) o
   | RWord i o => res_agree N.eqb (raw_word r i) o
-  | RSetBit i v o => res_agree unit_eqb (runit (raw_set_bit r i v)) o
+  | RSetBit i v o => res_agree_loose unit_eqb (runit (raw_set_bit r i v)) o
   | RInt off w o => res_agree N.eqb (raw_int r off w) o
   | RSetInt off v w o => res_agree unit_eqb (runit (raw_set_int r off v w)) o
   | RPushInt v w o => res_agree unit_eqb (runit (raw_push_int r v w)) o
